@@ -1,6 +1,7 @@
 (* C07_position_proofs.v — VariablesInAllowedPosition fires exactly when the specification
-   condition (5.8.5 All Variable Usages Are Allowed) is violated, for documents with distinct
-   fragment / operation names whose variable default values are constants.
+   condition (5.8.5 All Variable Usages Are Allowed) is violated, for documents whose variable
+   default values are constants (operations may share names or be anonymous: the rule keys the
+   tables of an operation by its index in the document).
    Plan: (0) the collecting handler reads the context only through the six answers, so the walk is a
    fold over [annot s d]; (1) a frame calculus characterising the usage / definition tables per
    definition ([VInv_document]); the spread table is related to the one of the variable rules
@@ -115,13 +116,14 @@ Section Collect.
     fr_dir : vp_directive st' = vp_directive st;
     fr_obj : vp_objects st' = vp_objects st;
     fr_dfl : vp_defaults st' = vp_defaults st;
-    fr_us : forall sc', tg sc' (vp_usages st') = tg sc' (vp_usages st) ++ (if scope_eqb sc' sc then us else []) }.
+    fr_us : forall sc', tg sc' (vp_usages st') = tg sc' (vp_usages st) ++ (if scope_eqb sc' sc then us else []);
+    fr_seen : vp_seen st' = vp_seen st }.
 
   Definition Pre (sc : scope) (dir : option name) (os : list (option name)) (ds : list bool) (st : viap_state) : Prop :=
     vp_scope st = Some sc /\ vp_directive st = dir /\ vp_objects st = os /\ vp_defaults st = ds.
 
   Lemma Pre_Frame sc dir os ds us df st st' : Pre sc dir os ds st -> Frame sc us df st st' -> Pre sc dir os ds st'.
-  Proof. intros (A & B & C & D) [F1 F2 F3 F4 F5 F6]. repeat split; congruence. Qed.
+  Proof. intros (A & B & C & D) [F1 F2 F3 F4 F5 F6 F7]. repeat split; congruence. Qed.
 
   Lemma Frame_refl sc st : Frame sc [] [] st st.
   Proof.
@@ -131,7 +133,7 @@ Section Collect.
   Lemma Frame_trans sc u1 d1 u2 d2 st st1 st2 :
     Frame sc u1 d1 st st1 -> Frame sc u2 d2 st1 st2 -> Frame sc (u1 ++ u2) (d1 ++ d2) st st2.
   Proof.
-    intros [A1 A2 A3 A4 A5 A6] [B1 B2 B3 B4 B5 B6]. constructor; try congruence.
+    intros [A1 A2 A3 A4 A5 A6 A7] [B1 B2 B3 B4 B5 B6 B7]. constructor; try congruence.
     - rewrite B2, A2. unfold push_all. rewrite fold_left_app. reflexivity.
     - intro sc'. rewrite B6, A6, <- app_assoc. destruct (scope_eqb sc' sc); reflexivity.
   Qed.
@@ -145,9 +147,10 @@ Section Collect.
     Frame sc us df st1 st2 ->
     vp_scope st3 = vp_scope st2 -> vp_defs st3 = vp_defs st2 -> vp_usages st3 = vp_usages st2 ->
     vp_directive st3 = vp_directive st -> vp_objects st3 = vp_objects st -> vp_defaults st3 = vp_defaults st ->
+    vp_seen st1 = vp_seen st -> vp_seen st3 = vp_seen st2 ->
     Frame sc us df st st3.
   Proof.
-    intros A1 A2 A3 [F1 F2 F3 F4 F5 F6] B1 B2 B3 C1 C2 C3. constructor; try congruence.
+    intros A1 A2 A3 [F1 F2 F3 F4 F5 F6 F7] B1 B2 B3 C1 C2 C3 S1 S2. constructor; try congruence.
     intro sc'. rewrite B3, F6, A3. reflexivity.
   Qed.
 
@@ -168,7 +171,7 @@ Section Collect.
   Lemma consistent_expecting e t : consistent (expecting s e t).
   Proof. reflexivity. Qed.
 
-  Ltac vs := unfold vstep; cbn [fst snd viap_collect vp_scope vp_defs vp_usages vp_spreads vp_directive vp_objects vp_defaults].
+  Ltac vs := unfold vstep; cbn [fst snd viap_collect vp_scope vp_seen vp_defs vp_usages vp_spreads vp_directive vp_objects vp_defaults].
 
   Lemma Frame_value v : forall e sc dir os ds st, Pre sc dir os ds st -> consistent e ->
     Frame sc (value_usages s v (a_input_lit e) (hdb ds)) [] st (vfold (annot_value s v e) st).
@@ -195,7 +198,7 @@ Section Collect.
         eapply Forall_impl; [|exact IH]. intros x Hx st' Hp'.
         exact (Hx (expecting s e (item_type (a_input_lit e))) sc dir os (false :: ds) st' Hp' (consistent_expecting _ _)). }
       destruct Hp as (Hsc & Hdir & Hos & Hds). destruct Hp1 as (Hsc1 & Hdir1 & Hos1 & Hds1).
-      eapply Frame_wrap; [| | |exact Hin| | | | | |]; try reflexivity.
+      eapply Frame_wrap; [| | |exact Hin| | | | | | | |]; try reflexivity.
       + vs. rewrite (fr_dir _ _ _ _ _ Hin). congruence.
       + vs. rewrite (fr_obj _ _ _ _ _ Hin). congruence.
       + vs. rewrite (fr_dfl _ _ _ _ _ Hin), Hds1, Hds. reflexivity.
@@ -231,13 +234,13 @@ Section Collect.
         cbn [hdb] in Hv. change (a_input_lit e') with (opt_map iv_type (fdecl kv)) in Hv.
         destruct Hp' as (Hsc' & Hdir' & Hos' & Hds'). destruct Hpa as (Hsca & Hdira & Hosa & Hdsa).
         set (stb := vfold _ sta) in *.
-        eapply Frame_wrap; [| | |exact Hv| | | | | |]; try reflexivity.
+        eapply Frame_wrap; [| | |exact Hv| | | | | | | |]; try reflexivity.
         + vs. rewrite (fr_dir _ _ _ _ _ Hv). congruence.
         + vs. rewrite (fr_obj _ _ _ _ _ Hv). congruence.
         + vs. rewrite (fr_dfl _ _ _ _ _ Hv), Hdsa, Hds'. reflexivity. }
       destruct Hp as (Hsc & Hdir & Hos & Hds). destruct Hp1 as (Hsc1 & Hdir1 & Hos1 & Hds1).
       set (st2 := vfold _ st1) in *.
-      eapply Frame_wrap; [| | |exact Hin| | | | | |]; try reflexivity.
+      eapply Frame_wrap; [| | |exact Hin| | | | | | | |]; try reflexivity.
       + vs. rewrite (fr_dir _ _ _ _ _ Hin). congruence.
       + vs. rewrite (fr_obj _ _ _ _ _ Hin), Hos1, Hos. reflexivity.
       + vs. rewrite (fr_dfl _ _ _ _ _ Hin). congruence.
@@ -272,7 +275,7 @@ Section Collect.
     cbn [hdb] in Hv. change (a_input_lit e') with (opt_map iv_type decl) in Hv.
     destruct Hp' as (Hsc' & Hdir' & Hos' & Hds'). destruct Hpa as (Hsca & Hdira & Hosa & Hdsa).
     set (stb := vfold _ sta) in *.
-    eapply Frame_wrap; [| | |exact Hv| | | | | |]; try reflexivity.
+    eapply Frame_wrap; [| | |exact Hv| | | | | | | |]; try reflexivity.
     + vs. rewrite (fr_dir _ _ _ _ _ Hv). congruence.
     + vs. rewrite (fr_obj _ _ _ _ _ Hv). congruence.
     + vs. rewrite (fr_dfl _ _ _ _ _ Hv), Hdsa, Hds'. reflexivity.
@@ -294,7 +297,7 @@ Section Collect.
                                 sc (Some (d_name dr)) os ds st1 Hp1 eq_refl) as Hin.
     destruct Hp as (Hsc & Hdir & Hos & Hds). destruct Hp1 as (Hsc1 & Hdir1 & Hos1 & Hds1).
     set (st2 := vfold _ st1) in *.
-    eapply Frame_wrap; [| | |exact Hin| | | | | |]; try reflexivity.
+    eapply Frame_wrap; [| | |exact Hin| | | | | | | |]; try reflexivity.
     + vs. symmetry. exact Hdir.
     + vs. rewrite (fr_obj _ _ _ _ _ Hin). congruence.
     + vs. rewrite (fr_dfl _ _ _ _ _ Hin). congruence.
@@ -533,45 +536,49 @@ Section Collect.
     apply (push_all_last sc r m [v] H).
   Qed.
 
-  Definition defs_spec (ops : list operation) : list (scope * list vardef) :=
-    flat_map (fun o => match op_variable_definitions o with
-                       | [] => []
-                       | l => [(ScOp (op_node_name o), l)]
-                       end) ops.
+  Definition defs_spec (ops : list (nat * operation)) : list (scope * list vardef) :=
+    flat_map (fun io : nat * operation =>
+                match op_variable_definitions (snd io) with
+                | [] => []
+                | l => [(ScOp (fst io) (op_node_name (snd io)), l)]
+                end) ops.
   Definition usages_spec (ds : document) (sc : scope) : list usage :=
-    flat_map (fun x => if scope_eqb sc (def_scope x) then definition_usages s x else []) ds.
+    flat_map (fun x => if scope_eqb sc (def_scope x) then definition_usages s (snd x) else []) (idefs 0 ds).
 
-  Lemma defs_spec_fresh n ops :
-    ~ In n (map op_node_name ops) -> as_get scope_eqb (ScOp n) (defs_spec ops) = None.
+  (* the scope of the operation being entered is new: every scope of the table has a smaller index *)
+  Lemma defs_spec_fresh i n ops :
+    (forall io, In io ops -> fst io < i) -> as_get scope_eqb (ScOp i n) (defs_spec ops) = None.
   Proof.
-    induction ops as [|o r IH]; cbn [map defs_spec flat_map]; intro H; [reflexivity|].
+    induction ops as [|[j o] r IH]; cbn [defs_spec flat_map]; intro H; [reflexivity|].
     fold (defs_spec r). rewrite as_get_app.
-    assert (E : oname_eqb n (op_node_name o) = false).
-    { destruct (oname_eqb n (op_node_name o)) eqn:E; [|reflexivity]. apply oname_eqb_eq in E.
-      exfalso. apply H. left. symmetry. exact E. }
-    destruct (op_variable_definitions o); cbn [as_get scope_eqb]; rewrite ?E; apply IH; intro H'; apply H; right; exact H'.
+    assert (E : opkey_eqb (i, n) (j, op_node_name o) = false).
+    { destruct (opkey_eqb (i, n) (j, op_node_name o)) eqn:E; [|reflexivity]. apply opkey_eqb_eq in E.
+      inversion E. subst. specialize (H (j, o) (or_introl eq_refl)). cbn in H. lia. }
+    cbn [fst snd].
+    destruct (op_variable_definitions o); cbn [as_get scope_eqb]; rewrite ?E; apply IH; intros io Hio; apply H; right; exact Hio.
   Qed.
 
   Record VInv (pre : document) (st : viap_state) : Prop := mkVInv {
-    vi_defs : vp_defs st = defs_spec (operations_of pre);
+    vi_defs : vp_defs st = defs_spec (iops 0 pre);
     vi_us : forall sc, tg sc (vp_usages st) = usages_spec pre sc;
-    vi_dir : vp_directive st = None }.
+    vi_dir : vp_directive st = None;
+    vi_seen : vp_seen st = nops pre }.
 
   Lemma VInv_step pre x st :
     VInv pre st ->
-    (forall o, x = DOp o -> ~ In (op_node_name o) (map op_node_name (operations_of pre))) ->
     (forall o, x = DOp o -> Forall vd_const (op_variable_definitions o)) ->
     VInv (pre ++ [x]) (vfold (annot_definition s x env0) st).
   Proof.
-    intros [Hd Hu Hdir] Hfresh Hconst. destruct x as [o|f].
+    intros [Hd Hu Hdir Hk] Hconst. destruct x as [o|f].
     - cbn [annot_definition]. cbv zeta.
       set (e1 := at_type s env0 (opt_map (fun t => TNamed (td_name t)) (root s (o_kind o)))).
       set (body := annot_directives s (op_directives o) e1 ++ annot_vardefs s (op_variable_definitions o) e1 ++
                    annot_selection_set s (o_span o) (o_sels o) e1 ++ [(Leave (NOperation o), e1)]).
-      rewrite vfold_cons. set (n := op_node_name o). set (st1 := vstep st (Enter (NOperation o), e1)).
-      assert (Hp1 : Pre (ScOp n) None (vp_objects st) (vp_defaults st) st1).
-      { unfold Pre, st1. vs. repeat split. exact Hdir. }
-      assert (Hb : Frame (ScOp n) (evs_usages body) (op_variable_definitions o) st1 (vfold body st1)).
+      rewrite vfold_cons. set (n := op_node_name o). set (i := nops pre).
+      set (st1 := vstep st (Enter (NOperation o), e1)).
+      assert (Hp1 : Pre (ScOp i n) None (vp_objects st) (vp_defaults st) st1).
+      { unfold Pre, st1. vs. rewrite Hk. repeat split. exact Hdir. }
+      assert (Hb : Frame (ScOp i n) (evs_usages body) (op_variable_definitions o) st1 (vfold body st1)).
       { unfold body. rewrite !vfold_app.
         pose proof (SegU_directives (op_directives o) e1 _ _ _ _ Hp1) as F1.
         pose proof (Pre_Frame _ _ _ _ _ _ _ _ Hp1 F1) as Hp2.
@@ -586,12 +593,16 @@ Section Collect.
       change (definition_usages s (DOp o)) with (evs_usages body) in *.
       constructor.
       + rewrite (fr_defs _ _ _ _ _ Hb). unfold st1. vs. rewrite Hd.
-        rewrite push_all_fresh by (apply defs_spec_fresh, (Hfresh o eq_refl)).
-        rewrite operations_of_app. unfold defs_spec. rewrite flat_map_app. cbn [operations_of flat_map app].
+        rewrite push_all_fresh.
+        2:{ apply defs_spec_fresh. intros [j o'] Hio. apply in_iops, idefs_op_lt in Hio. exact Hio. }
+        rewrite iops_app. unfold defs_spec. rewrite flat_map_app.
+        change (iops (0 + nops pre) [DOp o]) with [(i, o)]. cbn [flat_map app fst snd].
         fold n. destruct (op_variable_definitions o); rewrite ?app_nil_r; reflexivity.
       + intro sc. rewrite (fr_us _ _ _ _ _ Hb). unfold st1. vs. rewrite Hu. unfold usages_spec.
-        rewrite flat_map_app. cbn [flat_map def_scope]. rewrite app_nil_r. reflexivity.
+        rewrite idefs_snoc, flat_map_app. cbn [flat_map]. unfold def_scope at 3. cbn [fst snd].
+        rewrite app_nil_r. reflexivity.
       + rewrite (fr_dir _ _ _ _ _ Hb). unfold st1. vs. exact Hdir.
+      + rewrite (fr_seen _ _ _ _ _ Hb). unfold st1. vs. rewrite Hk, nops_app. unfold nops at 3. cbn. lia.
     - cbn [annot_definition]. cbv zeta.
       set (e1 := at_type s env0 (Some (TNamed (fr_tc f)))).
       set (body := annot_directives s (fr_dirs f) e1 ++ annot_selection_set s (fr_span f) (fr_sels f) e1 ++
@@ -606,37 +617,36 @@ Section Collect.
       change (definition_usages s (DFrag f)) with (evs_usages body) in *.
       constructor.
       + rewrite (fr_defs _ _ _ _ _ Hb). unfold st1. vs. unfold push_all. cbn [fold_left]. rewrite Hd.
-        rewrite operations_of_app. cbn [operations_of flat_map]. rewrite app_nil_r. reflexivity.
+        rewrite iops_app. change (iops (0 + nops pre) [DFrag f]) with (@nil (nat * operation)).
+        rewrite app_nil_r. reflexivity.
       + intro sc. rewrite (fr_us _ _ _ _ _ Hb). unfold st1. vs. rewrite Hu. unfold usages_spec.
-        rewrite flat_map_app. cbn [flat_map def_scope]. rewrite app_nil_r. reflexivity.
+        rewrite idefs_snoc, flat_map_app. cbn [flat_map]. unfold def_scope at 3. cbn [fst snd].
+        rewrite app_nil_r. reflexivity.
       + rewrite (fr_dir _ _ _ _ _ Hb). unfold st1. vs. exact Hdir.
+      + rewrite (fr_seen _ _ _ _ _ Hb). unfold st1. vs. rewrite Hk, nops_app. unfold nops at 3. cbn. lia.
   Qed.
 
   Lemma VInv_defs ds : forall pre st,
-    VInv pre st -> NoDup (map op_node_name (operations_of (pre ++ ds))) ->
+    VInv pre st ->
     (forall o, In (DOp o) ds -> Forall vd_const (op_variable_definitions o)) ->
     VInv (pre ++ ds) (vfold (flat_map (fun x => annot_definition s x env0) ds) st).
   Proof.
-    induction ds as [|x r IH]; intros pre st Hinv Hnd Hc; cbn [flat_map].
+    induction ds as [|x r IH]; intros pre st Hinv Hc; cbn [flat_map].
     - rewrite app_nil_r. exact Hinv.
     - rewrite vfold_app.
-      replace (pre ++ x :: r) with ((pre ++ [x]) ++ r) in * by (rewrite <- app_assoc; reflexivity).
-      apply IH; [|exact Hnd|intros o Ho; apply Hc; right; exact Ho]. apply VInv_step; [exact Hinv| |].
-      + intros o -> Hin. rewrite <- app_assoc in Hnd. cbn [app] in Hnd.
-        rewrite operations_of_app, map_app in Hnd. cbn [operations_of flat_map app map] in Hnd.
-        apply NoDup_remove_2 in Hnd. apply Hnd. apply in_or_app. left. exact Hin.
-      + intros o ->. apply Hc. left. reflexivity.
+      replace (pre ++ x :: r) with ((pre ++ [x]) ++ r) by (rewrite <- app_assoc; reflexivity).
+      apply IH; [|intros o Ho; apply Hc; right; exact Ho]. apply VInv_step; [exact Hinv|].
+      intros o ->. apply Hc. left. reflexivity.
   Qed.
 
   Lemma VInv_document d :
-    NoDup (map op_node_name (operations_of d)) ->
     (forall o, In (DOp o) d -> Forall vd_const (op_variable_definitions o)) ->
     VInv d (vfold (annot s d) viap_init).
   Proof.
-    intros Hnd Hc. unfold annot. rewrite vfold_cons, vfold_app, vfold_one.
+    intros Hc. unfold annot. rewrite vfold_cons, vfold_app, vfold_one.
     assert (E1 : vstep viap_init (Enter (NDocument d), env0) = viap_init) by reflexivity.
     assert (E2 : forall st, vstep st (Leave (NDocument d), env0) = st) by reflexivity.
-    rewrite E1, E2. apply (VInv_defs d [] viap_init); [|exact Hnd|exact Hc].
+    rewrite E1, E2. apply (VInv_defs d [] viap_init); [|exact Hc].
     constructor; reflexivity.
   Qed.
 End Collect.
@@ -644,27 +654,29 @@ End Collect.
 (* ================================================================== the spread table: simulation *)
 (* the spread table of this rule (sets) has the same members as the one of the variable rules *)
 Definition SimR (stv : vars_state) (stp : viap_state) : Prop :=
-  vs_scope stv = vp_scope stp /\
+  vs_scope stv = vp_scope stp /\ vs_seen stv = vp_seen stp /\
   forall sc x, In x (tg sc (vs_spreads stv)) <-> In x (tg sc (vp_spreads stp)).
 
 Lemma sim_step s stv stp ea : SimR stv stp -> SimR (vars_collect stv (fst ea)) (vstep s stp ea).
 Proof.
-  intros [H1 H2]. destruct ea as [e a]. unfold vstep. cbn [fst snd].
-  assert (Hfin : forall stv' stp', vs_scope stv' = vp_scope stp' -> vs_spreads stv' = vs_spreads stv ->
+  intros (H1 & Hk & H2). destruct ea as [e a]. unfold vstep. cbn [fst snd].
+  assert (Hfin : forall stv' stp', vs_scope stv' = vp_scope stp' -> vs_seen stv' = vp_seen stp' ->
+                                   vs_spreads stv' = vs_spreads stv ->
                                    vp_spreads stp' = vp_spreads stp -> SimR stv' stp').
-  { intros stv' stp' A B C. split; [exact A|]. rewrite B, C. exact H2. }
+  { intros stv' stp' A A' B C. split; [exact A|]. split; [exact A'|]. rewrite B, C. exact H2. }
   destruct e as [n|n]; destruct n; cbn [viap_collect vars_collect];
-    try (apply Hfin; [assumption|reflexivity|reflexivity]);
-    try (apply Hfin; reflexivity).
+    try (apply Hfin; [assumption|assumption|reflexivity|reflexivity]);
+    try (apply Hfin; cbn; congruence).
   - (* variable definition *)
-    rewrite <- H1. destruct (vs_scope stv) as [[m|m]|] eqn:Es; try (apply Hfin; cbn; congruence).
-    destruct (as_get oname_eqb m (vs_defined stv)); apply Hfin; cbn; congruence.
+    rewrite <- H1. destruct (vs_scope stv) as [[i m|m]|] eqn:Es; try (apply Hfin; cbn; congruence).
+    destruct (as_get opkey_eqb (i, m) (vs_defined stv)); apply Hfin; cbn; congruence.
   - (* argument *)
     destruct (vs_scope stv) eqn:Es; apply Hfin; cbn; congruence.
   - (* spread *)
-    destruct f as [p al n args dirs sp sels|p n dirs|p tc dirs sp sels]; try (apply Hfin; [assumption|reflexivity|reflexivity]).
+    destruct f as [p al n args dirs sp sels|p n dirs|p tc dirs sp sels];
+      try (apply Hfin; [assumption|assumption|reflexivity|reflexivity]).
     rewrite <- H1. destruct (vs_scope stv) as [sc0|] eqn:Es; [|apply Hfin; cbn; congruence].
-    split; [cbn; congruence|]. intros sc x. cbn [vs_spreads vp_spreads].
+    split; [cbn; congruence|]. split; [cbn; congruence|]. intros sc x. cbn [vs_spreads vp_spreads].
     rewrite as_push_append, tg_append, tg_set_add, in_app_iff, H2.
     destruct (scope_eqb sc sc0) eqn:E.
     + apply scope_eqb_eq in E. subst. cbn [In]. intuition.
@@ -684,7 +696,7 @@ Qed.
 Lemma sim_document s d : query_entry_ok s = true ->
   SimR (cfold (lin_document d) vars_init) (vfold s (annot s d) viap_init).
 Proof.
-  intro Hq. rewrite <- (annot_events s d Hq). apply sim_fold. split; [reflexivity|]. intros sc x. reflexivity.
+  intro Hq. rewrite <- (annot_events s d Hq). apply sim_fold. split; [reflexivity|]. split; [reflexivity|]. intros sc x. reflexivity.
 Qed.
 
 (* ================================================================== (2) the reachability walk *)
@@ -730,7 +742,7 @@ Section VWalk.
 
   Definition VWalkOK (fuel : nat) : Prop :=
     forall from errs vis,
-      vreach from -> (match from with ScFrag sp => In sp U | ScOp _ => True end) -> fuel_ok U fuel from vis ->
+      vreach from -> (match from with ScFrag sp => In sp U | ScOp _ _ => True end) -> fuel_ok U fuel from vis ->
       exists errs' vis', viap_walk fuel s st vds from errs vis = Some (errs', vis') /\
         incl vis vis' /\ In from vis' /\ (forall S, VWInv S vis errs -> VWInv S vis' errs').
 
@@ -765,8 +777,8 @@ Section VWalk.
         destruct (vloop_correct fuel IHf (vsuccs from) (errs ++ vue from) (vis ++ [from]))
           as (a' & v' & E' & I1 & I2 & I3).
         { intros sp Hsp. split; [eapply vreach_step; eassumption|eapply HU; eassumption]. }
-        { unfold fuel_ok in Hfuel. destruct from as [n|sp].
-          - pose proof (measure_mono U vis (vis ++ [ScOp n]) (incl_appl _ (incl_refl _))). lia.
+        { unfold fuel_ok in Hfuel. destruct from as [i n|sp].
+          - pose proof (measure_mono U vis (vis ++ [ScOp i n]) (incl_appl _ (incl_refl _))). lia.
           - pose proof (measure_lt U vis sp HinU Hnot). lia. }
         assert (Hfrom : In from v') by (apply I1, in_or_app; right; left; reflexivity).
         exists a', v'. split; [exact E'|]. split; [|split; [exact Hfrom|]].
@@ -795,7 +807,7 @@ Section VWalk.
   Qed.
 
   Lemma vwalk_top fuel :
-    (match root with ScFrag sp => In sp U | ScOp _ => True end) ->
+    (match root with ScFrag sp => In sp U | ScOp _ _ => True end) ->
     List.length U + 1 < fuel ->
     exists errs vis, viap_walk fuel s st vds root E0 [] = Some (errs, vis) /\
       (forall x, In x vis <-> vreach x) /\
@@ -1025,7 +1037,7 @@ Section Finish.
   Proof. reflexivity. Qed.
 
   Lemma finish_spec entries :
-    (forall entry, In entry entries -> exists n, fst entry = ScOp n) ->
+    (forall entry, In entry entries -> exists i n, fst entry = ScOp i n) ->
     forall res0 e,
       In e (r_errors (fold_left fstep entries res0)) <->
       In e (r_errors res0) \/
@@ -1033,7 +1045,7 @@ Section Finish.
   Proof.
     induction entries as [|a r IH]; intros Hroot res0 e; cbn [fold_left].
     - split; [intro H; left; exact H|]. intros [H|(entry & [] & _)]. exact H.
-    - destruct (Hroot a (or_introl eq_refl)) as [n Hn].
+    - destruct (Hroot a (or_introl eq_refl)) as (i & n & Hn).
       destruct (vwalk_top s st (snd a) (all_spreads d) (r_errors res0) HU (fst a) (vars_fuel d))
         as (errs & vis & E & _ & Herrs).
       { rewrite Hn. exact I. }
@@ -1053,26 +1065,36 @@ End Finish.
 
 Lemma in_defs_spec entry ops :
   In entry (defs_spec ops) <->
-  exists o, In o ops /\ op_variable_definitions o <> [] /\
-            entry = (ScOp (op_node_name o), op_variable_definitions o).
+  exists i o, In (i, o) ops /\ op_variable_definitions o <> [] /\
+            entry = (ScOp i (op_node_name o), op_variable_definitions o).
 Proof.
   unfold defs_spec. rewrite in_flat_map. split.
-  - intros (o & Ho & He). exists o. split; [exact Ho|].
+  - intros ([i o] & Ho & He). exists i, o. split; [exact Ho|]. cbn [fst snd] in He.
     destruct (op_variable_definitions o) as [|v l]; [destruct He|]. destruct He as [<-|[]].
     split; [discriminate|reflexivity].
-  - intros (o & Ho & Hne & ->). exists o. split; [exact Ho|].
+  - intros (i & o & Ho & Hne & ->). exists (i, o). split; [exact Ho|]. cbn [fst snd].
     destruct (op_variable_definitions o) as [|v l]; [congruence|]. left. reflexivity.
+Qed.
+
+Lemma usages_spec_frag_gen s d n :
+  usages_spec s d (ScFrag n)
+  = flat_map (fun f => if name_eqb (fr_name f) n then definition_usages s (DFrag f) else []) (fragments_of d).
+Proof.
+  unfold usages_spec, fragments_of. generalize 0 as k.
+  induction d as [|x r IH]; intro k; cbn [idefs flat_map]; [reflexivity|].
+  destruct x as [o|f]; cbn [idefs flat_map app]; unfold def_scope at 1; cbn [snd fst scope_eqb app].
+  - apply IH.
+  - rewrite name_eqb_sym. f_equal. apply IH.
 Qed.
 
 Section Connect2.
   Variables (s : sdocument) (d : document) (st : viap_state) (stv : vars_state).
-  Hypothesis Hnd : NoDup (map op_node_name (operations_of d)).
   Hypothesis Hvinv : VInv s d st.
   Hypothesis Htinv : TInv d stv.
   Hypothesis Hsim : SimR stv st.
 
   Lemma vsuccs_succs sc x : In x (vsuccs st sc) <-> In x (succs stv sc).
-  Proof. symmetry. exact (proj2 Hsim sc x). Qed.
+  Proof. symmetry. exact (proj2 (proj2 Hsim) sc x). Qed.
 
   Lemma vreach_reach root x : vreach st root x <-> reach stv root x.
   Proof.
@@ -1086,40 +1108,34 @@ Section Connect2.
   Lemma HU_all : forall sc sp, In sp (vsuccs st sc) -> In sp (all_spreads d).
   Proof. intros sc sp H. apply (succs_in_all d stv Htinv sc sp). apply vsuccs_succs, H. Qed.
 
-  Lemma usages_spec_op o u : In o (operations_of d) ->
-    (In u (usages_spec s d (ScOp (op_node_name o))) <-> In u (definition_usages s (DOp o))).
+  Lemma usages_spec_op i o u : In (i, DOp o) (idefs 0 d) ->
+    (In u (usages_spec s d (ScOp i (op_node_name o))) <-> In u (definition_usages s (DOp o))).
   Proof.
     intro Ho. unfold usages_spec. rewrite in_flat_map. split.
-    - intros (y & Hy & Hu). destruct (scope_eqb (ScOp (op_node_name o)) (def_scope y)) eqn:E; [|destruct Hu].
-      apply scope_eqb_eq in E. destruct y as [o'|f]; cbn [def_scope] in E; [|discriminate].
-      inversion E as [E']. apply in_operations_of in Hy.
-      rewrite (NoDup_map_inj op_node_name _ o o' Hnd Ho Hy E'). exact Hu.
-    - intro Hu. exists (DOp o). split; [apply in_operations_of, Ho|].
-      cbn [def_scope]. rewrite scope_eqb_refl. exact Hu.
+    - intros (y & Hy & Hu). destruct (scope_eqb (ScOp i (op_node_name o)) (def_scope y)) eqn:E; [|destruct Hu].
+      apply scope_eqb_eq in E. destruct y as [j [o'|f]]; unfold def_scope in E; cbn [fst snd] in E, Hu; [|discriminate].
+      inversion E. subst j. rewrite (idefs_index_inj d 0 i o o' Ho Hy). exact Hu.
+    - intro Hu. exists (i, DOp o). split; [exact Ho|].
+      unfold def_scope. cbn [fst snd]. rewrite scope_eqb_refl. exact Hu.
   Qed.
 
   Lemma usages_spec_frag n :
     usages_spec s d (ScFrag n)
     = flat_map (fun f => if name_eqb (fr_name f) n then definition_usages s (DFrag f) else []) (fragments_of d).
-  Proof.
-    unfold usages_spec, fragments_of. rewrite fm_fm.
-    apply flat_map_all_ext. intros [o|f]; cbn [def_scope scope_eqb flat_map].
-    - reflexivity.
-    - rewrite app_nil_r, name_eqb_sym. reflexivity.
-  Qed.
+  Proof. apply usages_spec_frag_gen. Qed.
 
-  Lemma op_usages_iff o u : In o (operations_of d) ->
+  Lemma op_usages_iff i o u : In (i, DOp o) (idefs 0 d) ->
     (In u (op_usages s d o) <->
-     exists x, reach stv (ScOp (op_node_name o)) x /\ In u (usages_spec s d x)).
+     exists x, reach stv (ScOp i (op_node_name o)) x /\ In u (usages_spec s d x)).
   Proof.
     intro Ho. unfold op_usages, op_reachable_fragments. rewrite in_app_iff, in_flat_map. split.
     - intros [H|(n & Hn & Hu)].
-      + exists (ScOp (op_node_name o)). split; [apply reach_root|apply usages_spec_op; assumption].
+      + exists (ScOp i (op_node_name o)). split; [apply reach_root|apply (usages_spec_op i o u Ho); assumption].
       + exists (ScFrag n). split; [|rewrite usages_spec_frag; exact Hu].
-        apply (reach_iff d stv o Hnd Htinv Ho). right. exists n. split; [reflexivity|].
+        apply (reach_iff d stv i o Htinv Ho). right. exists n. split; [reflexivity|].
         exact (proj1 (reachN_dedup d _ n) (proj1 (closure_iff d _ n) Hn)).
-    - intros (x & Hx & Hu). apply (reach_iff d stv o Hnd Htinv Ho) in Hx. destruct Hx as [->|(n & -> & Hn)].
-      + left. apply usages_spec_op; assumption.
+    - intros (x & Hx & Hu). apply (reach_iff d stv i o Htinv Ho) in Hx. destruct Hx as [->|(n & -> & Hn)].
+      + left. apply (usages_spec_op i o u Ho); assumption.
       + right. exists n. split; [exact (proj2 (closure_iff d _ n) (proj2 (reachN_dedup d _ n) Hn))|].
         rewrite usages_spec_frag in Hu. exact Hu.
   Qed.
@@ -1143,53 +1159,54 @@ Proof.
 Qed.
 
 (* the statement of the property with the additional hypothesis that default values are constants;
-   [doc_types_proper d] and [negb (violated R_VariablesAreInputTypes s d)] are not used *)
-Theorem variables_in_allowed_position_iff : forall s d,
-  wf_schema s = true -> doc_types_proper d = true ->
-  distinct_fragments d = true -> distinct_operations d = true ->
-  negb (violated R_VariablesAreInputTypes s d) = true ->
-  defaults_const d = true ->
+   [doc_types_proper d], [distinct_fragments d] and [negb (violated R_VariablesAreInputTypes s d)]
+   are not used *)
+(* the core: a well-formed schema and constant default values are all the proof uses (no side
+   condition on the names of operations or fragments) *)
+Theorem variables_in_allowed_position_core : forall s d,
+  wf_schema s = true -> defaults_const d = true ->
   (run_alone R_VariablesInAllowedPosition s d <> [] <-> violated R_VariablesInAllowedPosition s d = true).
 Proof.
-  intros s d Hwf _ _ Hdo _ Hconst.
+  intros s d Hwf Hconst.
   pose proof (wf_query_entry_ok s Hwf) as Hq.
-  pose proof (distinct_operations_NoDup d Hdo) as Hnd.
   set (st := vfold s (annot s d) viap_init).
   set (stv := cfold (lin_document d) vars_init).
   assert (Erun : run_alone R_VariablesInAllowedPosition s d = r_errors (viap_finish s d st)).
   { unfold run_alone. cbn [run_rule]. rewrite visit_fold, (collect_annot s d _ Hq). reflexivity. }
-  pose proof (VInv_document s d Hnd (defaults_const_spec d Hconst)) as Hvinv. fold st in Hvinv.
-  pose proof (TInv_document d Hnd) as Htinv. fold stv in Htinv.
+  pose proof (VInv_document s d (defaults_const_spec d Hconst)) as Hvinv. fold st in Hvinv.
+  pose proof (TInv_document d) as Htinv. fold stv in Htinv.
   pose proof (sim_document s d Hq) as Hsim. fold st stv in Hsim.
   (* the model side *)
   assert (Hmodel : run_alone R_VariablesInAllowedPosition s d <> [] <->
                    exists o, In o (operations_of d) /\
                              exists u, In u (op_usages s d o) /\ bad_m s (op_variable_definitions o) u = true).
   { rewrite Erun, nonnil_exists, viap_finish_fold.
-    assert (Hroots : forall entry, In entry (vp_defs st) -> exists n, fst entry = ScOp n).
+    assert (Hroots : forall entry, In entry (vp_defs st) -> exists i n, fst entry = ScOp i n).
     { intros entry He. rewrite (vi_defs _ _ _ Hvinv) in He. apply in_defs_spec in He.
-      destruct He as (o & _ & _ & ->). eexists. reflexivity. }
+      destruct He as (i & o & _ & _ & ->). eexists. eexists. reflexivity. }
     split.
     - intros (e & He).
       apply (finish_spec s d st (HU_all d st stv Htinv Hsim) (vp_defs st) Hroots) in He.
       cbn [r_errors] in He. destruct He as [[]|(entry & Hent & x & Hx & He)].
-      rewrite (vi_defs _ _ _ Hvinv) in Hent. apply in_defs_spec in Hent. destruct Hent as (o & Ho & _ & ->).
-      cbn [fst snd] in *. exists o. split; [exact Ho|].
+      rewrite (vi_defs _ _ _ Hvinv) in Hent. apply in_defs_spec in Hent. destruct Hent as (i & o & Ho & _ & ->).
+      cbn [fst snd] in *. exists o. split; [apply operations_iops; exists i; exact Ho|].
+      apply in_iops in Ho.
       assert (Hex : exists e0, In e0 (usage_errors s (op_variable_definitions o) (tg x (vp_usages st))))
         by (exists e; exact He).
       apply usage_errors_exists in Hex. destruct Hex as (u & Hu & Hb). exists u. split; [|exact Hb].
-      apply (op_usages_iff s d stv Hnd Htinv o u Ho). exists x.
+      apply (op_usages_iff s d stv Htinv i o u Ho). exists x.
       split; [apply (vreach_reach st stv Hsim), Hx|]. rewrite <- (vi_us _ _ _ Hvinv). exact Hu.
     - intros (o & Ho & u & Hu & Hb).
-      apply (op_usages_iff s d stv Hnd Htinv o u Ho) in Hu. destruct Hu as (x & Hx & Hu).
+      apply operations_iops in Ho. destruct Ho as (i & Ho). pose proof (proj1 (in_iops 0 d i o) Ho) as Ho'.
+      apply (op_usages_iff s d stv Htinv i o u Ho') in Hu. destruct Hu as (x & Hx & Hu).
       assert (Hne : op_variable_definitions o <> []).
       { intro E. unfold bad_m in Hb. rewrite E in Hb. cbn in Hb. discriminate. }
       assert (Hex : exists e0, In e0 (usage_errors s (op_variable_definitions o) (tg x (vp_usages st)))).
       { apply usage_errors_exists. exists u. split; [rewrite (vi_us _ _ _ Hvinv); exact Hu|exact Hb]. }
       destruct Hex as (e & He). exists e.
       apply (finish_spec s d st (HU_all d st stv Htinv Hsim) (vp_defs st) Hroots). right.
-      exists (ScOp (op_node_name o), op_variable_definitions o). split.
-      + rewrite (vi_defs _ _ _ Hvinv). apply in_defs_spec. exists o. repeat split; assumption.
+      exists (ScOp i (op_node_name o), op_variable_definitions o). split.
+      + rewrite (vi_defs _ _ _ Hvinv). apply in_defs_spec. exists i, o. repeat split; assumption.
       + exists x. split; [apply (vreach_reach st stv Hsim), Hx|exact He]. }
   (* the specification side *)
   assert (Hspec : violated R_VariablesInAllowedPosition s d = true <->
@@ -1209,6 +1226,14 @@ Proof.
   - rewrite <- (Hagree o u Hu). exact Hb.
   - rewrite (Hagree o u Hu). exact Hb.
 Qed.
+
+Theorem variables_in_allowed_position_iff : forall s d,
+  wf_schema s = true -> doc_types_proper d = true ->
+  distinct_fragments d = true ->
+  negb (violated R_VariablesAreInputTypes s d) = true ->
+  defaults_const d = true ->
+  (run_alone R_VariablesInAllowedPosition s d <> [] <-> violated R_VariablesInAllowedPosition s d = true).
+Proof. intros s d Hwf _ _ _ Hconst. apply variables_in_allowed_position_core; assumption. Qed.
 
 Print Assumptions variables_in_allowed_position_iff.
 
